@@ -74,7 +74,24 @@ type Case struct {
 // are other algorithms (only those whose DID the decoder can parse are used).
 const NPrincipals = 8
 
-func Prin(i int) *keys.Key { return keys.Principal(i) }
+// NPrincipalsMixed includes five principals with other key algorithms (indexes 8..12).
+const NPrincipalsMixed = 13
+
+func Prin(i int) *keys.Key {
+	switch i {
+	case 8:
+		return keys.Get(keys.Secp256k1, 0)
+	case 9:
+		return keys.Get(keys.P256, 0)
+	case 10:
+		return keys.Get(keys.RSA, 0)
+	case 11:
+		return keys.Get(keys.P384, 0)
+	case 12:
+		return keys.Get(keys.P521, 0)
+	}
+	return keys.Principal(i)
+}
 
 type loader struct {
 	m    map[cid.Cid]*delegation.Token
